@@ -197,6 +197,7 @@ macro_rules! rv_async_suite {
           g = None;
           assert!(matches!(tx.try_send(8), Err(TrySendError::Full(8))), "C03: rendezvous try_send succeeded after the receiver had completed");
         }
+        kani::cover!(true, "scenario ran to its end");
       }
 
       /// C06/C09: a cancelled pending send does not ghost-deliver and its value is dropped exactly once;
@@ -222,6 +223,7 @@ macro_rules! rv_async_suite {
           }
           assert!(drops(0) == 1, "C09: value handed back by try_send not dropped exactly once");
         }
+        kani::cover!(true, "scenario ran to its end");
       }
 
       /// C04/C06: a pending send / recv is woken and fails when the peer handle goes away.
@@ -245,6 +247,7 @@ macro_rules! rv_async_suite {
           assert!(matches!(poll_slot(&mut g, 1), Poll::Ready(Err(_))), "C04: pending rendezvous recv did not report Disconnected");
           g = None;
         }
+        kani::cover!(true, "scenario ran to its end");
       }
     }
   };
@@ -273,4 +276,5 @@ fn c04_q_rvspsc_async_send_after_receiver_closed() {
     _ => {}
   }
   g = None; // a registered rendezvous future points the channel at its own storage: it must be dropped, not leaked
+  kani::cover!(true, "scenario ran to its end");
 }
